@@ -927,4 +927,37 @@ theorem checkEntries_values (name : String) (fi mi : List (Nat × Nat)) :
                   exact ⟨b.1, b.2, hfb, by rw [hx]; exact hv⟩
                 · exact hrec p h2
 
+
+/-- an accepted object-id table is an object whose every member is `"<oid>": "h<uuid-handle>"`, one
+    returned pair per member -/
+theorem checkIds_ok (j : J) (ids got : List (Nat × Nat)) (h : checkIds j ids = .ok got) :
+    ∃ kv, j = .obj kv ∧ got.length = kv.length ∧
+      ∀ p ∈ got, ∃ q ∈ kv, natOf q.1 = some p.1 ∧ ∃ b, q.2 = .str b ∧ handleOf b = some p.2 := by
+  match j, h with
+  | .obj kv, h =>
+    refine ⟨kv, rfl, ?_⟩
+    simp only [checkIds] at h
+    split at h
+    · simp at h
+    · rename_i hlen
+      split at h
+      · simp at h
+      · split at h
+        · simp at h
+        · simp only [Except.ok.injEq] at h
+          subst h
+          simp only [bne_iff_ne, ne_eq, Decidable.not_not] at hlen
+          refine ⟨hlen, ?_⟩
+          intro p hp
+          obtain ⟨q, hq, hqp⟩ := List.mem_filterMap.mp hp
+          refine ⟨q, hq, ?_⟩
+          split at hqp
+          · rename_i oid b hoid hb
+            simp only [Option.map_eq_some_iff] at hqp
+            obtain ⟨u, hu, hpu⟩ := hqp
+            subst hpu
+            exact ⟨hoid, b, hb, hu⟩
+          · simp at hqp
+  | .null, h | .bool _, h | .num _, h | .str _, h | .arr _, h => simp [checkIds] at h
+
 end Sod.Codec
